@@ -79,4 +79,7 @@ with concurrent.futures.ThreadPoolExecutor(max_workers=args.jobs) as ex:
         head = HEAD
         if not args.own:
             json.dump({'repo_commit': head, 'properties_checked': props, 'flagged': flagged}, open(VERIF + '/seeded/' + name + '/detection.json', 'w'), indent=1)
+        else:
+            own = json.load(open(VERIF + '/seeded/' + name + '/meta.json'))['property']
+            json.dump({'repo_commit': head, 'properties_checked': [own], 'flagged': flagged}, open(VERIF + '/seeded/' + name + '/detection_own.json', 'w'), indent=1)
 shutil.rmtree(SNAP, ignore_errors=True)
